@@ -40,7 +40,7 @@ PROPS = {
                 "definition yields at least one match; distinct by hash of the whole case.",
         "assumptions": COMMON_ASSUMPTIONS,
         "stages": {"quick": NATIVE, "thorough": NATIVE},
-        "floors": {"quick": {"evaluations": 4_000_000, "distinct_nontrivial": 800_000,
+        "floors": {"quick": {"dense_dictionary_searches": 12, "long_haystacks": 5000, "long_haystacks_64k": 300, "evaluations": 4_000_000, "distinct_nontrivial": 800_000,
                              "iter_with_2plus_matches": 300_000, "empty_match_first": 100_000},
                    "thorough": {"evaluations": 100_000_000, "distinct_nontrivial": 1_000_000}},
         "timeout": T_DEFAULT,
@@ -51,7 +51,7 @@ PROPS = {
         "rule": ENUM_RULE + "Standard match kind only. Non-trivial: the definition yields at least one match.",
         "assumptions": COMMON_ASSUMPTIONS,
         "stages": {"quick": NATIVE, "thorough": NATIVE},
-        "floors": {"quick": {"evaluations": 2_000_000, "distinct_nontrivial": 400_000,
+        "floors": {"quick": {"dense_dictionary_searches": 12, "long_haystacks": 5000, "evaluations": 2_000_000, "distinct_nontrivial": 400_000,
                              "iter_with_2plus_matches": 150_000},
                    "thorough": {"evaluations": 50_000_000, "distinct_nontrivial": 1_000_000}},
         "timeout": T_DEFAULT,
@@ -66,7 +66,7 @@ PROPS = {
                 "Non-trivial: at least one occurrence.",
         "assumptions": COMMON_ASSUMPTIONS,
         "stages": {"quick": NATIVE, "thorough": NATIVE},
-        "floors": {"quick": {"evaluations": 10_000_000, "distinct_nontrivial": 400_000,
+        "floors": {"quick": {"histories_with_a_rejected_request_interleaved": 300_000, "many_identifier_cases": 8, "long_haystacks": 3000, "evaluations": 10_000_000, "distinct_nontrivial": 400_000,
                              "several_matches_at_one_end": 200_000, "state_clones_checked": 500_000},
                    "thorough": {"evaluations": 200_000_000, "distinct_nontrivial": 1_000_000}},
         "timeout": T_DEFAULT,
@@ -80,7 +80,7 @@ PROPS = {
                 "span start.",
         "assumptions": COMMON_ASSUMPTIONS,
         "stages": {"quick": NATIVE, "thorough": NATIVE},
-        "floors": {"quick": {"evaluations": 10_000_000, "distinct_nontrivial": 1_000_000},
+        "floors": {"quick": {"histories_with_a_rejected_request_interleaved": 300_000, "evaluations": 10_000_000, "distinct_nontrivial": 1_000_000},
                    "thorough": {"evaluations": 200_000_000, "distinct_nontrivial": 1_000_000}},
         "timeout": T_DEFAULT,
     },
@@ -99,7 +99,9 @@ PROPS = {
                 "classified accepted / error value / panic / late failure of a constructed iterator and compared "
                 "with the predicate of the property. Every cell is counted as a distinct case.",
         "assumptions": COMMON_ASSUMPTIONS[1:] + [
-            "readers/writers used for the stream entry points never fail, so any Err is a rejection"],
+            "readers/writers used for the stream entry points never fail, so any Err is a rejection",
+            "the matrix runs twice: in the release build and in the overflow-checked build (stage 'checked': "
+            "-C overflow-checks=on -C debug-assertions=on), where silently wrapping arithmetic panics"],
         "exhaustive": True,
         "exhaustive_note": "the configuration x API space is enumerated completely; pattern lists and haystacks are sampled",
         "stages": {"quick": NATIVE_AND_CHECKED, "thorough": NATIVE_AND_CHECKED},
@@ -162,7 +164,7 @@ PROPS.update({
             "product walks are capped at 200000 pairs per variant (cap hits are counted; none on the pinned tree)"],
         "stages": {"quick": NATIVE, "thorough": NATIVE},
         "coverage_map": {"states": "product_pairs", "transitions": "product_transitions"},
-        "floors": {"quick": {"product_transitions": 100_000_000, "product_pairs": 400_000,
+        "floors": {"quick": {"huge_automata_lists": 8, "product_transitions": 100_000_000, "product_pairs": 400_000,
                              "e2e_compared_top-auto": 5000, "e2e_compared_low-dfa": 5000,
                              "product_walks_low-dfa": 2000, "product_walks_low-cnfa": 2000,
                              "distinct_nontrivial": 20_000},
@@ -207,7 +209,7 @@ PROPS.update({
             "which occurrence an earliest-mode search returns is not fixed by the semantics (a packed prefilter confirms "
             "the full leftmost match), so earliest is compared as found/not-found here; C14 checks its validity"],
         "stages": {"quick": NATIVE, "thorough": NATIVE},
-        "floors": {"quick": {"evaluations": 500_000, "distinct_nontrivial": 200_000,
+        "floors": {"quick": {"gap_cases": 60, "long_haystacks": 2000, "evaluations": 500_000, "distinct_nontrivial": 200_000,
                              "variant_Memmem": 30_000, "variant_StartBytesOne": 20_000, "variant_StartBytesTwo": 30_000,
                              "variant_StartBytesThree": 8_000, "variant_RareBytesOne": 40_000,
                              "variant_RareBytesTwo": 25_000, "variant_RareBytesThree": 8_000, "variant_Packed": 60_000,
@@ -233,7 +235,8 @@ PROPS.update({
                 "code or the short-haystack Rabin-Karp fallback ran. Non-trivial: a match exists.",
         "assumptions": COMMON_ASSUMPTIONS,
         "stages": {"quick": NATIVE, "thorough": NATIVE},
-        "floors": {"quick": dict({"evaluations": 3_000_000, "distinct_nontrivial": 1_000_000,
+        "floors": {"quick": dict({"giant_pattern_cases": 20, "hash_collision_cases": 20, "searches_at_shifted_base_address": 1_000_000,
+                                   "evaluations": 3_000_000, "distinct_nontrivial": 1_000_000,
                                   "vector_path_with_match": 700_000, "match_in_final_16_bytes": 150_000, "near_miss_haystacks": 20_000,
                                   "match_straddles_16_byte_boundary": 100_000},
                                  **{"%s_m%d_vector" % (i, m): 20_000
@@ -293,7 +296,7 @@ PROPS.update({
         "exhaustive": False,
         "exhaustive_note": "fault positions exhaustive per case; cases sampled",
         "stages": {"quick": NATIVE, "thorough": NATIVE},
-        "floors": {"quick": {"evaluations": 1_500_000, "read_faults_injected_find": 500_000,
+        "floors": {"quick": {"consecutive_read_faults_injected": 150_000, "evaluations": 1_500_000, "read_faults_injected_find": 500_000,
                              "read_faults_injected_replace": 500_000, "write_faults_injected": 400_000,
                              "read_faults_surfaced_in_rolling_cases": 400_000,
                              "iterations_resumed_after_fault": 300_000},
@@ -315,7 +318,7 @@ PROPS.update({
                 "packed::Searcher::find_in in all packed variants. Non-trivial: a proper sub-span with a match.",
         "assumptions": COMMON_ASSUMPTIONS[1:],
         "stages": {"quick": NATIVE_AND_CHECKED, "thorough": NATIVE_AND_CHECKED},
-        "floors": {"quick": {"evaluations": 3_000_000, "distinct_nontrivial": 300_000, "outside_rewrites": 1_000_000,
+        "floors": {"quick": {"long_haystacks": 5000, "evaluations": 3_000_000, "distinct_nontrivial": 300_000, "outside_rewrites": 1_000_000,
                              "done_spans": 100_000, "input_range_forms": 1_000_000, "packed_span_SlimSSSE3": 100_000, "packed_span_FatAVX2": 100_000,
                              "variant_Packed": 4000, "variant_RareBytesOne": 3000, "variant_StartBytesTwo": 2000,
                              "variant_Memmem": 1000},
@@ -335,7 +338,7 @@ PROPS.update({
                 "exists.",
         "assumptions": COMMON_ASSUMPTIONS,
         "stages": {"quick": NATIVE, "thorough": NATIVE},
-        "floors": {"quick": {"evaluations": 3_000_000, "distinct_nontrivial": 250_000,
+        "floors": {"quick": {"long_haystacks": 4000, "evaluations": 3_000_000, "distinct_nontrivial": 250_000,
                              "fold_metamorphic_comparisons": 500_000, "haystacks_with_boundary_bytes": 200_000},
                    "thorough": {"evaluations": 100_000_000}},
         "timeout": T_DEFAULT,
@@ -489,7 +492,7 @@ PROPS.update({
                 "Non-trivial: collections with at least 2 patterns.",
         "assumptions": COMMON_ASSUMPTIONS[1:] + ["the documented size limits (2^31 states etc.) are not approached"],
         "stages": {"quick": NATIVE, "thorough": NATIVE},
-        "floors": {"quick": {"evaluations": 40_000, "distinct_nontrivial": 8000, "pattern_id_probes": 30_000,
+        "floors": {"quick": {"builder_reuse_builds": 500, "packed_builder_reuse_cases": 150, "big_dense_builds": 4, "metadata_read_through_reference_type": 2000, "evaluations": 40_000, "distinct_nontrivial": 8000, "pattern_id_probes": 30_000,
                              "built_top-auto": 1000, "built_low-dfa": 1000, "built_low-cnfa": 1000,
                              "shape_thousands_of_random_patterns": 200, "shape_no_patterns": 500,
                              "convenience_constructor_sets": 500},
